@@ -62,7 +62,7 @@ PROPERTIES = {
         ],
     },
     "C04": {
-        "modules": ["contracts.core_models", "contracts.c04_reset", "contracts.c04_wrappers"],
+        "modules": ["contracts.core_models", "contracts.c04_reset", "contracts.c04_wrappers", "contracts.c04_misc"],
         "level": "proof",
         "explanation": "reset behaviour is decided at its two implementation points, both proved from the real source: (1) the process bodies std._context._sequential_impl builds (no reset / asynchronous / synchronous): for arbitrary truth values of trigger, reset and step condition the activation performs exactly reset_context followed by every on_reset action when reset is active (asynchronous: whatever the trigger; synchronous: at the trigger, whatever the step condition) and nothing else, otherwise reset_pushed + the user step when trigger and step condition hold; the sensitivity list contains the reset signal exactly for asynchronous resets; (2) ir.Sequential._pushed_resettable_signals expands reset_context into exactly one default assignment per root written or pushed in the context that has a default and is not noreset -- flags and default are those of the ROOT also when the access goes through a slice or view; roots without default or marked noreset get none; all objects are collected before the statements are rewritten (event streams enumerated, per-event contract for arbitrary prior sets).",
         "assumptions": COMMON_ASSUME + [
